@@ -455,4 +455,25 @@ theorem C13_pairs_witness :
 example : relationsWrapO exBigSingle.tree = .ok (outTree exBigSingle) :=
   C13_total_pairs exBigSingle (by decide +kernel) (by decide +kernel)
 
+/-- non-vacuity of `C13_wrapO_none` / `C13_sortMayPanic_none`: `a (> 1)` is read without error, the
+    accessor `version()` panics on its operator -/
+example : (parse "a (> 1)".toList false).errors = []
+    ∧ sortMayPanic (parse "a (> 1)".toList false).tree = none := by
+  refine ⟨by decide +kernel, by decide +kernel⟩
+
+/-- non-vacuity of `sortO_pairs`: an element that cannot be compared with itself, but with the others -/
+example :
+    let cmpO : Nat → Nat → Outcome Ordering := fun a b => if a = 7 ∧ b = 7 then .panic "" else .ok (natCmp a b)
+    anyPair (cmpPanics cmpO) [7, 3, 5] = false ∧ cmpPanics cmpO 7 7 = true
+      ∧ sortO cmpO [7, 3, 5] = .ok ([7, 3, 5].mergeSort (leOf natCmp)) := by
+  intro cmpO
+  have href : ∀ a b, Refines (cmpO a b) (natCmp a b) := by
+    intro a b o h
+    simp only [cmpO] at h
+    split at h
+    · cases h
+    · exact (Outcome.ok.inj h).symm
+  have hp : anyPair (cmpPanics cmpO) [7, 3, 5] = false := by decide
+  exact ⟨hp, by decide, sortO_pairs cmpO natCmp _ href hp⟩
+
 end Deb822Verif.Props.C13
